@@ -181,6 +181,21 @@ def run(cx, tier='quick'):
                         rep.bad('DET-ENV', '::'.join(m.path), 'use=%s' % p, 'imports an environment-dependent API `%s`' % p, m.file, it['l'])
         rep.ok('DET-STATE', 'module %s: %d items scanned' % ('::'.join(m.path) or 'crate', len(m.items)))
     check_mir(cx, rep, seen_iter)
+    # statics declared inside function bodies
+    for f in cx.crate.fns:
+        for node in walk_json(f.block):
+            if isinstance(node, dict) and node.get('k') == 'Item' and isinstance(node.get('item'), dict):
+                it = node['item']
+                if it.get('k') == 'Static':
+                    t = ty_s(it['ty'])
+                    if it.get('mut') or any(x in t for x in INTERIOR):
+                        rep.bad('DET-STATE', f.qname, 'static=%s' % it.get('name'), 'mutable / interior-mutable function-local static `%s: %s` carries state from one expansion to the next' % (it.get('name'), t), f.file, it.get('l'))
+                    else:
+                        rep.ok('DET-STATE', '%s|local static %s' % (f.qname, it.get('name')))
+                if it.get('k') == 'Macro' and it.get('mac', {}).get('name', '').split('::')[-1] in ('thread_local', 'lazy_static'):
+                    rep.bad('DET-STATE', f.qname, 'macro=%s' % it['mac']['name'], 'global state declared with `%s!` inside a function' % it['mac']['name'], f.file, it.get('l'))
+            if isinstance(node, dict) and node.get('k') == 'Macro' and isinstance(node.get('mac'), dict) and node['mac'].get('name', '').split('::')[-1] in ('thread_local', 'lazy_static'):
+                rep.bad('DET-STATE', f.qname, 'macro=%s' % node['mac']['name'], 'global state declared with `%s!` inside a function' % node['mac']['name'], f.file, node.get('l'))
     rep.floor('DET-HASH', 100, '(≈180 loops today)')
     rep.floor('DET-STATE', 50)
     selftest(rep)
